@@ -10,7 +10,7 @@ CHECKS = {
  'C01': dict(
    technique='Coq proof (stack-machine induction) + extracted-model correspondence + implementation oracle',
    text='Theorems C01_unflatten_flatten / C01_reflatten hold for every configuration and every well-formed tree of the model '
-        '(no bound on size, depth, arity); the correspondence run compares flatten, flatten_with_path, the leaf iterator and '
+        '(no bound on size, depth, arity); C01_flatten_unflatten_replace: unflattening with ANY n leaf-typed replacement objects and flattening returns exactly those objects and the identical treespec (every configuration without a predicate); the correspondence run compares flatten, flatten_with_path, the leaf iterator and '
         'unflatten of the extracted model with the rebuilt implementation field by field on generated trees (all kinds, key mixes, '
         'construction histories, options); an oracle evaluates the round-trip laws directly on the implementation.',
    note=TB + 'Modelled, not verified: C++ reference counting, struct-sequence unnamed fields, keys outside the key universe (NaN, hash-equal cross-type keys).',
@@ -20,7 +20,7 @@ CHECKS = {
    text='Theorems: the key sort always returns a permutation; for pairwise comparable keys it is sorted by < and independent of the insertion order, hence two dicts with the same items in different insertion orders flatten to the same leaves and to treespecs == cannot distinguish; '
         'when neither sort applies the keys stay in insertion order; OrderedDict is always visited in insertion order; a true predicate makes a leaf before any registry lookup; an unregistered class is a leaf; namespace registrations shadow global ones; None is a childless node unless none_is_leaf. '
         'The run compares flatten/with_path/iterator with the model on every insertion permutation of dicts with up to 4 (thorough: 5) keys over nine key-mix classes (sortable, mixed, stage-2, unsortable, with None, tuples) in both dict-order modes, plus random dict-heavy trees; oracles check insertion-order independence, the none_is_leaf law and predicate idempotence on the implementation.',
-   note=TB + 'PARTIAL: insertion-order independence is proved for stage 1 (pairwise comparable keys); for stage 2 (mixed types sorted by (type name, key)) it is covered by the exhaustive permutation run, not by a theorem. The ranking of type names is a model parameter checked against the real class names by the run. Keys outside the key universe are not modelled.',
+   note=TB + 'Insertion-order independence is proved for stage 1 (C02_sort_stage1_insertion_order_irrelevant) and for stage 2 (C02_sort_stage2_sorted, C02_sort_insertion_order_irrelevant, C02_dict_insertion_order_irrelevant_any: mixed types sorted by (type name, key)); the exhaustive permutation run ties the model order to the implementation. The ranking of type names is a model parameter checked against the real class names by the run. Keys outside the key universe are not modelled.',
    design='§7 C02'),
  'C03': dict(
    technique='Coq proof (induction on the depth budget, agenda lemma for the iterator) + extracted-model correspondence + all-pairs oracle on 8 entry points',
@@ -35,7 +35,7 @@ CHECKS = {
    text='Theorems: for every tree whose custom nodes declare pairwise distinct entries and every configuration, the i-th path applied to the tree entry by entry returns the i-th leaf; those paths are the ones recomputed from the treespec; there are as many paths as leaves. '
         'The run compares paths, typed accessor entries (entry, entry class, parent node type, kind) and the result of applying every path with the model, and checks on the implementation: accessor(tree) is the i-th leaf object, .path, entry typing and field names, distinct and prefix-free paths, '
         'accessor ==/hash consistency (incl. a pool of accessors for the same positions obtained under different registrations), slicing/concatenation, and evaluation of the generated code for literal keys.',
-   note=TB + 'PARTIAL: distinctness / prefix-freeness, accessor equality/hash (they compare bytecode of the entry classes) and codify strings are checked on the implementation only. GetAttrEntry with non-string entries cannot be applied and is skipped.',
+   note=TB + 'Distinctness / prefix-freeness of paths is proved (C04_paths_prefix_free for everything flatten-with-path returns on trees whose custom nodes declare distinct entries; C04_treespec_paths_prefix_free for any treespec with distinct entries). PARTIAL: accessor equality/hash (they compare bytecode of the entry classes) and codify strings are checked on the implementation only. GetAttrEntry with non-string entries cannot be applied and is skipped.',
    design='§7 C04'),
  'C05': dict(
    technique='Coq proof (trace monad over the mapped function) + extracted-model correspondence of results and call traces + oracle on all map variants',
@@ -53,16 +53,16 @@ CHECKS = {
    design='§7 C06'),
  'C07': dict(
    technique='Coq proof (order laws on structured treespecs) + three-way correspondence/oracle (flatten_up_to, is_prefix, prefix_errors) against the tree-level model',
-   text='Theorems (partial, see level_note): is_prefix is reflexive and never strictly so on itself; a leaf is a prefix of everything; a < b iff a <= b and some leaf of a is a non-leaf of b; prefixes need equal none_is_leaf and compatible namespaces. '
+   text='Theorems: the prefix relation on structured treespecs is transitive with no side condition (C07_prefix_trans), is_prefix is transitive whenever the outer namespaces are compatible and refuted otherwise (\'a\' <= \'\' <= \'b\'); every treespec flatten produces satisfies the side conditions of the order theorems (C07_flatten_gives_good_treespecs); is_prefix is reflexive and never strictly so on itself; a leaf is a prefix of everything; a < b iff a <= b and some leaf of a is a non-leaf of b; prefixes need equal none_is_leaf and compatible namespaces. '
         'The run compares is_prefix (both directions, strict and not) and flatten_up_to with the model on derived pairs (true suffixes, dict-kind/key-order/maxlen variations, one-edit near misses, unrelated) and checks on the implementation: three-way agreement with prefix_errors, only ValueError, the partition of leaves, subtree-at-path, converses, transitivity on chains.',
-   note=TB + 'PARTIAL: transitivity, antisymmetry up to dict equivalence, and flatten_up_to <-> is_prefix <-> prefix_errors are NOT proved in Coq; they are decided by the differential run (tree-level model vs the C++ index walks incl. the sibling re-ordering block, and the Python prefix_errors).',
+   note=TB + 'PARTIAL: antisymmetry up to dict equivalence and the agreement flatten_up_to <-> is_prefix <-> prefix_errors (three separately written implementations, one in Python) are NOT proved in Coq; they are decided by the differential run (tree-level model vs the C++ index walks incl. the sibling re-ordering block, and the Python prefix_errors).',
    design='§7 C07'),
  'C09': dict(
-   technique='Coq proof (node-level laws of the join) + extracted-model correspondence of full result arrays and of the Python broadcast family + lattice-law oracle',
-   text='Theorems (partial): a leaf is replaced by the other operand\'s subtree on either side; where both operands are internal nodes the result carries the first operand\'s kind, key order, custom path entries, registration and original keys; '
+   technique='Coq proof (the join is an upper bound in the prefix order, by induction over treespecs with key-aligned dict children; node-level laws) + extracted-model correspondence of full result arrays and of the Python broadcast family + lattice-law oracle',
+   text='Theorems: whenever broadcast_to_common_suffix succeeds, BOTH operands are prefixes of the result (C09_join_is_upper_bound, for all treespecs satisfying the side conditions that C09_flatten_gives_good_treespecs proves for everything flatten produces); a leaf is replaced by the other operand\'s subtree on either side; where both operands are internal nodes the result carries the first operand\'s kind, key order, custom path entries, registration and original keys; '
         'option mismatches raise ValueError; the result namespace is the documented merge. The run compares broadcast_to_common_suffix in both argument orders (entire node arrays incl. node_entries and original_keys), '
         'tree_broadcast_prefix, broadcast_prefix, tree_broadcast_common and broadcast_common with the model, and checks upper bound, order independence up to dict kind/order, idempotence, prefix-absorption, operands unchanged, the path-prefix law and tree_broadcast_map on the implementation.',
-   note=TB + 'PARTIAL: "least upper bound" and two-pass sufficiency for n trees are not proved in Coq (upper bound / idempotence / absorption are checked by the oracle on every generated pair).',
+   note=TB + 'PARTIAL: "least" (minimality of the upper bound) and two-pass sufficiency for n trees are not proved in Coq (idempotence / absorption / minimality against the operands are checked by the oracle on every generated pair).',
    design='§7 C09'),
  'C10': dict(
    technique='Coq proof (list lemma on chunks/zip for all m, n) + extracted-model correspondence + oracle on the transpose_map family',
